@@ -5,7 +5,7 @@ From WTF Require Import Model.Validate Model.Text.
 Import ListNotations.
 Local Open Scope string_scope.
 
-Record nentry := { n_cmd : bytes; n_desc : bytes; n_keys : list bytes; n_niche : bytes; n_platforms : list bytes; n_pipeline : bool }.
+Record nentry := { n_cmd : bytes; n_desc : bytes; n_keys : list bytes; n_tags : list bytes; n_niche : bytes; n_platforms : list bytes; n_pipeline : bool }.
 
 (* saveToPersonalDatabase: replace the first entry with the same command string in place, else append *)
 Fixpoint save_entry (book : list nentry) (e : nentry) : list nentry :=
@@ -31,4 +31,4 @@ Definition pipeline_entry (name cmd : bytes) (desc : option bytes) (keys : list 
                (if has "awk" || has "sed" then [bytes_of_string "text"; bytes_of_string "processing"] else []) ++
                (if has "sort" then [bytes_of_string "sort"; bytes_of_string "order"] else []) ++
                (if has "find" then [bytes_of_string "find"; bytes_of_string "search"] else []))%list in
-  {| n_cmd := cmd; n_desc := d; n_keys := (auto ++ keys)%list; n_niche := niche; n_platforms := platforms; n_pipeline := true |}.
+  {| n_cmd := cmd; n_desc := d; n_keys := (auto ++ keys)%list; n_tags := []; n_niche := niche; n_platforms := platforms; n_pipeline := true |}.
